@@ -138,6 +138,7 @@ class Interp:
         self.runner = None
         self.runner_key = None
         self.array_params = {}
+        self.flt_src = {}; self.flt_dst = {}
 
     # ---- build ops -------------------------------------------------------------------------
     def apply(self, op):
@@ -168,6 +169,12 @@ class Interp:
         param = py_expr(op["param"]) if op.get("param") is not None else "not-a-number"
         ss = strata_dict(op.get("src_strata")) or None
         ds = strata_dict(op.get("dst_strata")) or None
+        if op.get("reuse_filter"):
+            # the caller keeps ONE dict object per end and updates it in place from call to call (a loop over strata that edits its filter)
+            if ss is not None:
+                self.flt_src.clear(); self.flt_src.update(ss); ss = self.flt_src
+            if ds is not None:
+                self.flt_dst.clear(); self.flt_dst.update(ds); ds = self.flt_dst
         ex = op.get("expected")
         if kind == "crude_birth":
             m.add_crude_birth_flow(name, param, op["dst"], ds, ex)
